@@ -8,6 +8,7 @@ import (
 	"errors"
 	"fmt"
 	"io"
+	"math/rand"
 	"net/http"
 	"sort"
 	"strings"
@@ -24,6 +25,7 @@ import (
 	"verif/harness/evd"
 	"verif/harness/ref"
 	"verif/harness/rig"
+	"verif/harness/seam"
 )
 
 // C19: HTTP push. The real HttpPushStreamer runs inside the bubble against a
@@ -326,6 +328,22 @@ func TestC19(t *testing.T) {
 			client := &http.Client{Transport: ep}
 			pusher := actions.NewHttpPusher(sub, id, "http://endpoint.invalid/push", client, e.Client)
 			ctx, cancel := context.WithCancel(e.Actor("pusher"))
+			// schedule noise: each of the pusher's transactions (fetch, ack / nack,
+			// lease extension, refresh) may start a little after the goroutine that
+			// runs it decided what to write
+			// (not in the script that checks the exact window at quiescent points: a
+			// fetch whose limit was computed before a failure narrowed the window, and
+			// which starts late, legitimately brings one push too many)
+			if i%2 == 1 && kind != "narrow-then-backlog" {
+				dr := &lockedRand{r: rand.New(rand.NewSource(seed ^ 0x19))}
+				seam.C.SetBoundaryDelays(func(actor string) time.Duration {
+					if actor == "pusher" {
+						return time.Duration(dr.Intn(60)) * time.Millisecond
+					}
+					return 0
+				}, nil)
+				defer seam.C.SetBoundaryDelays(nil, nil)
+			}
 			done := make(chan error, 1)
 			go func() { done <- pusher.Go(ctx) }()
 			lo := time.Now()
